@@ -803,6 +803,7 @@ func (w *World) connOpts(spec TunnelSpec) ConnOpts {
 		PeerAddr:           spec.Peer,
 		ServerAddr:         "server.verif:443",
 		CtxValue:           nilIfEmpty(spec.CtxVal),
+		InterceptMD:        spec.IcptMD,
 		// A legacy peer neither sends nor looks at the negotiate key; emulating one
 		// with a current endpoint therefore hides the key in both directions.
 		StripReqNegotiate:  cfg.ClientFC == "legacy" || cfg.ServerFC == "legacy",
